@@ -131,9 +131,15 @@ func (wt *watcher) read() *storeView {
 	if v.hdrs[0].BlockHash() != *wt.w.params.GenesisHash {
 		wt.fail("genesis-wrong", nil, "height 0 holds %s", short(v.hdrs[0].BlockHash()))
 	}
+	// (A filter-header store that cannot be read back is C03's business as
+	// much as C01's: its entries must belong to the blocks of the chain.)
+	ffail := wt.fail
+	if wt.checkC03 {
+		ffail = wt.failOwn
+	}
 	ftip, ftipH, err := cs.RegFilterHeaders.ChainTip()
 	if err != nil {
-		wt.fail("filter-tip-unreadable", nil, "RegFilterHeaders.ChainTip: %v", err)
+		ffail("filter-tip-unreadable", nil, "RegFilterHeaders.ChainTip: %v", err)
 	}
 	if ftipH > tipH {
 		if wt.checkC03 {
@@ -144,12 +150,12 @@ func (wt *watcher) read() *storeView {
 	for h := uint32(0); h <= ftipH; h++ {
 		fh, err := cs.RegFilterHeaders.FetchHeaderByHeight(h)
 		if err != nil {
-			wt.fail("filter-height-unreadable", nil, "filter FetchHeaderByHeight(%d) with tip %d: %v", h, ftipH, err)
+			ffail("filter-height-unreadable", nil, "filter FetchHeaderByHeight(%d) with tip %d: %v", h, ftipH, err)
 		}
 		v.filt = append(v.filt, *fh)
 	}
 	if *ftip != v.filt[ftipH] {
-		wt.fail("lookup-disagree", map[string]string{"by": "filter-tip"}, "filter ChainTip differs from entry at height %d", ftipH)
+		ffail("lookup-disagree", map[string]string{"by": "filter-tip"}, "filter ChainTip differs from entry at height %d", ftipH)
 	}
 	return v
 }
